@@ -497,6 +497,10 @@ class SimKernel(object):
             if sig == 0:
                 return
             raise RuntimeError('daemon signals itself')
+        if pid in getattr(self, 'foreign_eperm', ()):
+            # a live process of another user: it exists, we may not signal it
+            raise _simulated(PermissionError(errno.EPERM,
+                                             'Operation not permitted'))
         self.signal(pid, sig, 'os.kill')
 
     # ------------------------------------------------------------- inspection
